@@ -229,7 +229,12 @@ def handleEncDec (withReenc : Bool) : List String → String
       let d := decodeBytecode encCtx (fun bc => .ok bc) (modsOf ms) e
       if d.gob then claimed
       else classOf d.res fun bc =>
-        showBC bc ++ (if withReenc then " reenc=" ++ hexOfBytes (encodeBytecode encCtx bc) else "")
+        -- the re-encoding is taken before fixObjects (which replaces module items by the live
+        -- objects listed, key-sorted, in `mods`): it must reproduce the input bytes exactly
+        let pre := match (bcLoopF encCtx (3 * e.length + 16) (e.drop 6) {}).res with
+          | .ok b => b
+          | _ => bc
+        showBC bc ++ (if withReenc then " reenc=" ++ hexOfBytes (encodeBytecode encCtx pre) else "")
     | _, _ => "bad-request"
   | _ => "bad-request"
 
